@@ -508,11 +508,17 @@ func (r *transport) backgroundRevalidate(
 	errc := make(chan error, 1)
 	go func() {
 		defer close(errc)
-		//nolint:bodyclose // The response is not used, so we don't need to close it.
 		resp, start, end, err := r.roundTripTimed(req)
 		if err != nil {
 			errc <- err
 			return
+		}
+		// Nobody reads this response once this goroutine is done (what is
+		// stored of it is serialised before then). It is the caller of a
+		// RoundTripper that closes the body: an upstream may hold a connection
+		// or a goroutine until that happens, whatever becomes of the context.
+		if resp.Body != nil {
+			defer resp.Body.Close()
 		}
 		select {
 		case <-req.Context().Done():
